@@ -819,6 +819,8 @@ _MC = "acryo.molecules.core"
 _MR = "acryo.molecules._rotation"
 _Q = {"qm": rotation.R30[9]}
 MUTANTS = [
+    ("from_axes:y-completed-with-swapped-operands (seeded change C11_12)", "checks.c11", "sec_from_axes_pairs", {}, {_MC: [("            y = cross(z, x, axis=1)\n", "            y = cross(x, z, axis=1)\n")]}),
+    ("from_axes:z-completed-with-swapped-operands", "checks.c11", "sec_from_axes_pairs", {}, {_MC: [("            z = cross(x, y, axis=1)\n", "            z = cross(y, x, axis=1)\n")]}),
     ("axes:special-cases-decided-for-the-whole-batch (defect fixed by 'fix: rotation from two axes...')", "checks.c11", "sec_align_rotator", {},
      {_MR: [("antiparallel = np.all(np.abs(src + dst) < 1e-6, axis=1)", "antiparallel = np.all(np.abs(src + dst) < 1e-6) & np.ones(len(dst), dtype=bool)")]}),
     ("axes:second-half-turn-about-an-arbitrary-axis (same fix)", "checks.c11", "sec_axes_degenerate", {}, {_MR: [("rot_z = _get_align_rotator([[1, 0, 0]], z0_trans, antiparallel_axis=[0, 1, 0])", "rot_z = _get_align_rotator([[1, 0, 0]], z0_trans)")]}),
